@@ -118,6 +118,8 @@ type Sched struct {
 	mainDone  bool
 	aborted   atomic.Bool
 	abortWhy  string
+	wall0     int64  // real time at the start, see the wall-clock cap
+	yields    uint64 // yield points passed (bounds runs that compute without ever blocking)
 	done      bool
 
 	Crashes []Crash
@@ -369,6 +371,7 @@ func (s *Sched) yield(g *G, site int32) {
 		if s.done {
 			return
 		}
+		s.yields++
 		g.spin++
 		if g.spin < 3000 {
 			if s.Pol.PreemptDen == 0 || !s.St.Bool(1, s.Pol.PreemptDen) {
@@ -440,6 +443,19 @@ func (s *Sched) loop() {
 		if s.St.Len() > 20_000_000 {
 			s.Stats.EndReason = "cap: choices"
 			return
+		}
+		if s.yields > 40_000_000 {
+			s.Stats.EndReason = "cap: yields"
+			return
+		}
+		if s.step&255 == 0 {
+			if s.wall0 == 0 {
+				s.wall0 = runtime_nanotime()
+			} else if runtime_nanotime()-s.wall0 > 75e9 {
+				// (inconclusive, like every cap: a run is never judged by how long it took)
+				s.Stats.EndReason = "cap: wall clock"
+				return
+			}
 		}
 		if now.Sub(s.start) > s.cfg.Horizon {
 			s.Stats.EndReason = "cap: horizon"
